@@ -3,7 +3,7 @@ from mirsym.harness import Check
 from . import scen
 from .C01 import ASSUME
 
-QUICK = ['seq2', 'two_if', 'if_else_first', 'catch_act']
+QUICK = ['seq2', 'two_if', 'if_else_first', 'catch_act', 'cancel_par']
 
 
 def main(tier, seed):
@@ -12,11 +12,15 @@ def main(tier, seed):
     names = QUICK if tier == "quick" else list(scen.catalogue().keys())
     k = 2 if tier == "quick" else 3
     parts = 4 if tier == "quick" else 16
+    names = [n for n in names if not n.startswith("c04:")]
     for n in names:
+        # generated (parallel) groups: only complete / cancel histories are explored; skip / back / abort / remove inside one generated
+        # group leave the sibling groups open (observed, see DESIGN.md findings) and are not classified further here
+        extra = dict(kinds=["Next", "Cancel"]) if n in ("cancel_par", "par_block", "seq_block") else {}
         for i in range(parts):
-            jobs.append(("props.flow", "run_scenario", (n, dict(policy="fifo", k=k, oracles=("c03",), targets="acts", part=(i, parts),
+            jobs.append(("props.flow", "run_scenario", (n, dict(extra, policy="fifo", k=k, oracles=("c03",), targets="acts", part=(i, parts),
                                                                  max_paths=600 if tier == "quick" else 20000, seed=seed), "C03")))
-        jobs.append(("props.flow", "run_scenario", (n, dict(policy="lifo", k=1, oracles=("c03",), targets="all", max_paths=400, seed=seed), "C03")))
+        jobs.append(("props.flow", "run_scenario", (n, dict(extra, policy="lifo", k=1, oracles=("c03",), targets="all", max_paths=400, seed=seed), "C03")))
     c.run_jobs(jobs)
     return c.finish(
         rule="one path = scenario x valuation class of the symbolic inputs x (target task, symbolic action kind) per script step x schedule",
